@@ -92,22 +92,40 @@ def jobOf (j : Json) : Except String Job := do
   let ctx ← optCtx (← reqKey j "ctx")
   let cm ← optOptNat j "cmd_max"
   let dm ← (match (← reqKey j "dmap") with | .null => pure none | v => do pure (some (← mapDeltaOf v)))
-  return { id := id, st := st, hd := hd, name := name, req := req, ctx := ctx, cmdMax := cm, dmap := dm }
+  let res ← (← reqKey j "res").getBool?
+  let dp ← (← reqKey j "dp").getBool?
+  return { id := id, st := st, hd := hd, name := name, req := req, ctx := ctx, cmdMax := cm, dmap := dm,
+           res := res, dp := dp }
 
 def outcomeOf (j : Json) : Except String Outcome :=
   match j with
   | .str "refuse" => .ok .refuse
   | _ => do return .accept (← (← reqKey j "accept").getNat?)
 
-/-- a status name | "fault:HTTPError" | "fault:ConnectionError" | "ignored" -/
+/-- a status name | "fault:HTTPError" | "fault:ConnectionError" | "fault:KeyboardInterrupt" | "ignored" | "intr" -/
 def ansOfString : String → Except String Ans
   | "fault:HTTPError" => .ok (.fault .httpError)
   | "fault:ConnectionError" => .ok (.fault .connectionError)
+  | "fault:KeyboardInterrupt" => .ok (.fault .keyboardInterrupt)
   | "ignored" => .ok .ignored
+  | "intr" => .ok .intr
   | s => do return .st (← statusOfString s)
 
 def stsOf (j : Json) : Except String (List Ans) := do
   (← (← reqKey j "sts").getArr?).toList.mapM fun x => do ansOfString (← x.getStr?)
+
+/-- "ok:mapped" | "ok:plain" | "unavailable" | "fault:<class>" -/
+def rspOfString : String → Except String Rsp
+  | "ok:mapped" => .ok (.ok true)
+  | "ok:plain" => .ok (.ok false)
+  | "unavailable" => .ok .unavailable
+  | "fault:HTTPError" => .ok (.fault .httpError)
+  | "fault:ConnectionError" => .ok (.fault .connectionError)
+  | "fault:KeyboardInterrupt" => .ok (.fault .keyboardInterrupt)
+  | s => .error s!"bad results answer {s}"
+
+def rspsOf (j : Json) : Except String (List Rsp) := do
+  (← (← reqKey j "rsps").getArr?).toList.mapM fun x => do rspOfString (← x.getStr?)
 
 def kindOf : String → Except String ListKind
   | "successful" => .ok .successful
@@ -127,12 +145,18 @@ def opOf (j : Json) : Except String Op := do
       (← (← reqKey j "seq").getBool?) outs (← stsOf j)
   | "progress" => return .progress (← stsOf j)
   | "list" => return .list (← kindOf (← (← reqKey j "kind").getStr?)) (← stsOf j)
+  | "get_results" => return .getResults (← stsOf j) (← rspsOf j)
+  | "track" => return .track (← stsOf j)
+  | "wipe" => return .wipe (← (← reqKey j "now").getNat?)
+  | "delete_date" => return .deleteDate (← (← reqKey j "cutoff").getNat?) (← (← reqKey j "now").getNat?)
+  | "other" => return .other
   | s => throw s!"bad op {s}"
 
 def variantOf (j : Json) : Except String Variant := do
   return { ctxFix := ← (← reqKey j "ctx").getBool?, dirFix := ← (← reqKey j "dir").getBool?,
            addFix := ← (← reqKey j "add").getBool?, statFix := ← (← reqKey j "stat").getBool?,
-           pollFix := ← (← reqKey j "poll").getBool? }
+           pollFix := ← (← reqKey j "poll").getBool?, resFix := ← (← reqKey j "res").getBool?,
+           gstFix := ← (← reqKey j "gst").getBool? }
 
 /-! output -/
 def optNatJ : Option Nat → Json
@@ -167,7 +191,8 @@ def optReqJ : Option Req → Json
 def jobJ (j : Job) : Json :=
   Json.mkObj ([("id", optNatJ j.id), ("st", .str (statusToString j.st)), ("hd", toJson j.hd),
                ("name", toJson j.name), ("req", optReqJ j.req), ("ctx", optCtxJ j.ctx),
-               ("dmap", match j.dmap with | some m => mapDeltaJ m | none => .null)] ++
+               ("dmap", match j.dmap with | some m => mapDeltaJ m | none => .null),
+               ("res", toJson j.res), ("dp", toJson j.dp)] ++
               (match j.cmdMax with | some v => [("cmd_max", optNatJ v)] | none => []))
 
 def djobJ (e : DJob) : Json :=
@@ -182,6 +207,8 @@ def errName : Err → String
   | .assertionError => "AssertionError"
   | .httpError => "HTTPError"
   | .connectionError => "ConnectionError"
+  | .keyError => "KeyError"
+  | .keyboardInterrupt => "KeyboardInterrupt"
 
 def resJ : Res → Json
   | .ok => .str "ok"
@@ -193,7 +220,7 @@ def snapshot (v : Variant) (s : State) : List (String × Json) :=
    ("disk", match s.disk with | none => .null | some d => Json.arr (d.map djobJ).toArray),
    ("dir", toJson s.dir),
    ("reload", Json.arr ((reload v s).map jobJ).toArray),
-   ("next", toJson s.next)]
+   ("next", toJson s.next), ("created", toJson s.created)]
 
 def sentJ (r : Sent) : Json :=
   Json.mkObj [("idx", toJson r.idx), ("id", toJson r.id), ("req", optReqJ r.req), ("stored", optReqJ r.stored)]
@@ -239,9 +266,45 @@ def handleHistory (j : Json) : Json :=
                 ("sent", Json.arr (r.1.sent.map sentJ).toArray),
                 ("issued", toJson r.1.issued), ("retired", toJson r.1.retired)]
 
+/-! group files of one directory: {"ns": [{"op":"open","n":1,"now":5}, {"op":"save","n":1,"data":2,"now":6},
+   {"op":"has","n":1}, {"op":"list"}, {"op":"delete","n":1}, {"op":"delete_all"},
+   {"op":"delete_date","cutoff":7,"now":9}]} → {"obs": [{"content": null|{"created":c,"data":k}}, {"found": b},
+   {"names": [...]} (sorted: a directory listing has no order), "done", "raised", …]} -/
+def nsOpOf (j : Json) : Except String NS.Op := do
+  let nat (k : String) : Except String Nat := do (← reqKey j k).getNat?
+  match (← (← reqKey j "op").getStr?) with
+  | "open" => return .open (← nat "n") (← nat "now")
+  | "save" => return .save (← nat "n") (← nat "data") (← nat "now")
+  | "has" => return .has (← nat "n")
+  | "list" => return .list
+  | "delete" => return .delete (← nat "n")
+  | "delete_all" => return .deleteAll
+  | "delete_date" => return .deleteDate (← nat "cutoff") (← nat "now")
+  | s => throw s!"bad ns op {s}"
+
+def insertSorted (x : Nat) : List Nat → List Nat
+  | [] => [x]
+  | y :: ys => if x ≤ y then x :: y :: ys else y :: insertSorted x ys
+
+def nsObsJ : NS.Obs → Json
+  | .content none => Json.mkObj [("content", .null)]
+  | .content (some c) => Json.mkObj [("content", Json.mkObj [("created", toJson c.created), ("data", toJson c.data)])]
+  | .found b => Json.mkObj [("found", toJson b)]
+  | .names l => Json.mkObj [("names", toJson (l.foldr insertSorted []))]
+  | .done => .str "done"
+  | .raised => .str "raised"
+
+def handleNs (j : Json) : Json :=
+  match (do (← j.getArr?).toList.mapM nsOpOf : Except String (List NS.Op)) with
+  | .error e => errJson e
+  | .ok ops => Json.mkObj [("obs", Json.arr ((PM.SM.run (NS.step NS.real) [] ops).2.map nsObsJ).toArray)]
+
 def handle (j : Json) : Json :=
   match optKey j "fs" with
   | some ops => handleFs ops
-  | none => handleHistory j
+  | none =>
+    match optKey j "ns" with
+    | some ops => handleNs ops
+    | none => handleHistory j
 
 def main : IO Unit := run handle
